@@ -1184,7 +1184,22 @@ def accClauses (c : Case) : Option (List String) :=
     with `u_max` is `≥ u_max` by monotone rounding, so a finite quotient is in `[0, 1]` (`C09_maximized_masses_nonneg_gen`,
     `C02_ecm_masses_nonneg_gen` are the statements at the exact semantics).  An operand mass in `[-ε, 0)`, which the constructors
     tolerate, makes `u_max` (not clamped) negative: such operands are outside the class.  Before the repair the residue `-ε/4`
-    was returned by 0.4-3 % of ECm fusions on dyadic / decimal grids. -/
+    was returned by 0.4-3 % of ECm fusions on dyadic / decimal grids.
+
+    Products (repair b817f74: all four product bodies clamp every joint belief mass `p[d] - a[d]*u` at zero): clause
+    `C06.masses_nonneg`, under the other properties that run products (C15, C16, C19) `<prop>.prod_masses_nonneg`.  On every `ok` answer
+    of `prod2` / `prod3` all of whose operand and output scalars are finite:
+    * every joint belief mass is `≥ 0` — for ALL such operands: the clamp returns `+0`, the un-negative value itself (`-0.0` decodes
+      to the rational 0) or NaN (then the output is not finite and the clause is not evaluated); the unlabelled family passes the
+      masses through `Opinion::new` unchanged, the labelled families through `Opinion::normalized`, which renormalises the base rate
+      only (`C06_product_masses_nonneg_gen`, `…3` are the statements at the exact semantics);
+    * when moreover every operand scalar is `≥ 0` exactly and every operand uncertainty `≤ 1`: the joint uncertainty is `≥ 0` — it is
+      the least (`min` skips NaN) of the candidates `u0 (r1 + u1) + r0 u1`, `r = b / a` on cells with `a0 a1 > 0`, sums of products
+      of non-negative floats (`C06_uncertainty_nonneg_gen`).  No condition on any sum, none on the guard bands.
+    For the labelled families this clause is the only one that sees a negative residue (the tolerance of `C06.wf` is far above ε; the
+    unlabelled family panics in `Opinion::new` instead: `C19.rejected_rounding_residue(b[])`).  Before the repair the residue was
+    `-1.5 ε .. -4.5 ε` on 1 in 12 000 products with a vacuous factor, 1 in 3000 with a nearly vacuous one
+    (gen/corpus/prodclamp_hot.txt, `G.vacuous_factor_product`). -/
 def signClauses (c : Case) : Option (List String) :=
   if c.cls != "ok" then none else
   match allSome c.inp, allSome c.out with
@@ -1205,6 +1220,17 @@ def signClauses (c : Case) : Option (List String) :=
         if isOS then (slice xs (2 * n + 1) n, xs.getD (3 * n + 1) 0, a1) else opinionAt xs (2 * n + 1) n
       if !(nn b1 && nn a1 && nn b2 && nn a2 && decide (0 ≤ u1) && decide (u1 ≤ 1) && decide (0 ≤ u2) && decide (u2 ≤ 1)) then none else
       some (check (c.prop ++ ".ecm_masses_nonneg") (resOk (slice out 0 n) (out.getD n 0)))
+    else if c.op == "prod2" || c.op == "prod3" then
+      let k := if c.op == "prod2" then 2 else 3
+      let dims := (List.range k).map fun i => c.ints.getD i 0
+      let N := dims.foldl (· * ·) 1
+      let total := (dims.map fun d => 2 * d + 1).foldl (· + ·) 0
+      if xs.size != total || out.size != 2 * N + 1 then none else
+      let name := if c.prop == "C06" then "C06.masses_nonneg" else c.prop ++ ".prod_masses_nonneg"
+      let offs := (List.range k).map fun i => (((List.range i).map fun j => 2 * dims.getD j 0 + 1).foldl (· + ·) 0)
+      let ops := (List.range k).map fun i => opinionAt xs (offs.getD i 0) (dims.getD i 0)
+      let opsNonneg := ops.all fun w => nn w.1 && decide (0 ≤ w.2.1) && decide (w.2.1 ≤ 1) && nn w.2.2
+      some (check name (nn (slice out 0 N) && (!opsNonneg || decide (0 ≤ out.getD N 0))))
     else none
   | _, _ => none
 
